@@ -1,0 +1,163 @@
+//go:build verif
+
+// Machine-checked contracts for package commitlog (comment-only; see /verif/DESIGN.md).
+
+package commitlog
+
+// ---------------------------------------------------------------------------------------------
+// Retention (property C09)
+//
+// Observers of a segment, defined on the real state:
+//@ pure func count(s *segment) int64 = s.Index.position / 20
+//@ pure func size(s *segment) int64 = s.position
+//@ pure func sumCount(s []*segment, lo int, hi int) int64 = lo >= hi ? 0 : count(s[lo]) + sumCount(s, lo+1, hi)
+//@ pure func sumSize(s []*segment, lo int, hi int) int64 = lo >= hi ? 0 : size(s[lo]) + sumSize(s, lo+1, hi)
+//@ pure func segsOK(s []*segment) bool = forall j int :: 0 <= j && j < len(s) ==> s[j] != nil && s[j].Index != nil && s[j].Index.position >= 0 && s[j].position >= 0
+
+//@ func (*index).CountEntries serves C09
+//@   requires idx != nil && idx.position >= 0
+//@   safety
+//@   modifies nothing
+//@   ensures result == idx.position / 20
+
+//@ func (*segment).MessageCount serves C09
+//@   requires s != nil && s.Index != nil && s.Index.position >= 0
+//@   safety
+//@   modifies nothing
+//@   ensures result == count(s)
+
+//@ func (*segment).Position serves C09
+//@   requires s != nil
+//@   safety
+//@   modifies nothing
+//@   ensures result == size(s)
+
+// applyMessagesLimit: the result is a suffix of the input that keeps the newest segment; a segment is
+// dropped only if keeping it would exceed the limit; the limit holds on the result unless only the
+// newest segment is left.
+//@ func (*deleteCleaner).applyMessagesLimit serves C09
+//@   returns (out, err)
+//@   requires c != nil && c.Retention.Messages > 0 && segsOK(segments)
+//@   safety
+//@   ensures [input-kept] forall j int :: 0 <= j && j < len(segments) ==> segments[j] == old(segments[j])
+//@   ensures [suffix] err == nil && len(segments) >= 1 ==> 1 <= len(out) && len(out) <= len(segments) && (forall j int :: 0 <= j && j < len(out) ==> out[j] == old(segments[len(segments)-len(out)+j]))
+//@   ensures [untouched-if-short] len(segments) <= 1 ==> err == nil && out == segments
+//@   ensures [needed] err == nil && len(out) < len(segments) ==> old(sumCount(segments, len(segments)-len(out)-1, len(segments))) > c.Retention.Messages
+//@   ensures [limit] err == nil && len(segments) >= 1 ==> old(sumCount(segments, len(segments)-len(out), len(segments))) <= c.Retention.Messages || len(out) == 1
+//@   loop 1 invariant -1 <= i && i <= len(segments)-2
+//@   loop 1 invariant forall j int :: 0 <= j && j < len(segments) ==> segments[j] == old(segments[j])
+//@   loop 1 invariant fresh(cleanedSegments) && len(cleanedSegments) == len(segments)-1-i
+//@   loop 1 invariant forall j int :: 0 <= j && j < len(cleanedSegments) ==> cleanedSegments[j] == old(segments[i+1+j])
+//@   loop 1 invariant totalMessages == old(sumCount(segments, i+1, len(segments)))
+//@   loop 1 invariant i < len(segments)-2 ==> totalMessages <= c.Retention.Messages
+//@   ensures [deleted] err == nil ==> (forall j int :: 0 <= j && j < len(segments)-len(out) ==> ghost.removed[old(segments[j])])
+//@   ensures [only-deleted] forall s *segment :: ghost.removed[s] ==> old(ghost.removed[s]) || (exists j int :: 0 <= j && j < len(segments)-len(out) && old(segments[j]) == s) || err != nil
+//@   loop 2 invariant -1 <= i && i <= len(segments)-2
+//@   loop 2 invariant forall j int :: 0 <= j && j < len(segments) ==> segments[j] == old(segments[j])
+//@   loop 2 invariant fresh(cleanedSegments)
+//@   loop 2 invariant fresh(toDelete)
+//@   loop 2 invariant arrOf(toDelete) != arrOf(cleanedSegments)
+//@   loop 2 invariant forall j int :: 0 <= j && j < len(cleanedSegments) ==> cleanedSegments[j] == old(segments[len(segments)-len(cleanedSegments)+j])
+//@   loop 2 invariant len(toDelete) == len(segments)-len(cleanedSegments)-1-i
+//@   loop 2 invariant len(toDelete) <= cap(toDelete)
+//@   loop 2 invariant forall j int :: 0 <= j && j < len(toDelete) ==> toDelete[j] == old(segments[len(segments)-len(cleanedSegments)-1-j])
+//@   loop 2 invariant forall j int :: i < j && j <= len(segments)-len(cleanedSegments)-1 ==> toDelete[len(segments)-len(cleanedSegments)-1-j] == old(segments[j])
+
+// applyBytesLimit: same contract over the byte sizes.
+// (the result is a suffix of the input that keeps the newest segment; a segment is
+// dropped only if keeping it would exceed the limit; the limit holds on the result unless only the
+// newest segment is left.)
+//@ func (*deleteCleaner).applyBytesLimit serves C09
+//@   returns (out, err)
+//@   requires c != nil && c.Retention.Bytes > 0 && segsOK(segments)
+//@   safety
+//@   ensures [input-kept] forall j int :: 0 <= j && j < len(segments) ==> segments[j] == old(segments[j])
+//@   ensures [suffix] err == nil && len(segments) >= 1 ==> 1 <= len(out) && len(out) <= len(segments) && (forall j int :: 0 <= j && j < len(out) ==> out[j] == old(segments[len(segments)-len(out)+j]))
+//@   ensures [untouched-if-short] len(segments) <= 1 ==> err == nil && out == segments
+//@   ensures [needed] err == nil && len(out) < len(segments) ==> old(sumSize(segments, len(segments)-len(out)-1, len(segments))) > c.Retention.Bytes
+//@   ensures [limit] err == nil && len(segments) >= 1 ==> old(sumSize(segments, len(segments)-len(out), len(segments))) <= c.Retention.Bytes || len(out) == 1
+//@   loop 1 invariant -1 <= i && i <= len(segments)-2
+//@   loop 1 invariant forall j int :: 0 <= j && j < len(segments) ==> segments[j] == old(segments[j])
+//@   loop 1 invariant fresh(cleanedSegments) && len(cleanedSegments) == len(segments)-1-i
+//@   loop 1 invariant forall j int :: 0 <= j && j < len(cleanedSegments) ==> cleanedSegments[j] == old(segments[i+1+j])
+//@   loop 1 invariant totalBytes == old(sumSize(segments, i+1, len(segments)))
+//@   loop 1 invariant i < len(segments)-2 ==> totalBytes <= c.Retention.Bytes
+//@   ensures [deleted] err == nil ==> (forall j int :: 0 <= j && j < len(segments)-len(out) ==> ghost.removed[old(segments[j])])
+//@   ensures [only-deleted] forall s *segment :: ghost.removed[s] ==> old(ghost.removed[s]) || (exists j int :: 0 <= j && j < len(segments)-len(out) && old(segments[j]) == s) || err != nil
+//@   loop 2 invariant -1 <= i && i <= len(segments)-2
+//@   loop 2 invariant forall j int :: 0 <= j && j < len(segments) ==> segments[j] == old(segments[j])
+//@   loop 2 invariant fresh(cleanedSegments)
+//@   loop 2 invariant fresh(toDelete)
+//@   loop 2 invariant arrOf(toDelete) != arrOf(cleanedSegments)
+//@   loop 2 invariant forall j int :: 0 <= j && j < len(cleanedSegments) ==> cleanedSegments[j] == old(segments[len(segments)-len(cleanedSegments)+j])
+//@   loop 2 invariant len(toDelete) == len(segments)-len(cleanedSegments)-1-i
+//@   loop 2 invariant len(toDelete) <= cap(toDelete)
+//@   loop 2 invariant forall j int :: 0 <= j && j < len(toDelete) ==> toDelete[j] == old(segments[len(segments)-len(cleanedSegments)-1-j])
+//@   loop 2 invariant forall j int :: i < j && j <= len(segments)-len(cleanedSegments)-1 ==> toDelete[len(segments)-len(cleanedSegments)-1-j] == old(segments[j])
+
+
+// removed: the segments handed to Delete() (their files are removed) -- the retention effect
+//@ ghost var removed set[*segment]
+
+//@ func (*segment).MarkDeleted serves C09
+//@   requires s != nil
+//@   safety
+//@   modifies s.deleted
+//@   ensures s.deleted
+
+// deleteSegments marks and deletes exactly the segments it is given.
+//@ func (*deleteCleaner).deleteSegments serves C09
+//@   requires c != nil && (forall j int :: 0 <= j && j < len(segments) ==> segments[j] != nil)
+//@   safety
+//@   ensures [input-kept] forall j int :: 0 <= j && j < len(segments) ==> segments[j] == old(segments[j])
+//@   modifies ghost.removed, computed
+//@   ghost after call Delete: ghost.removed[arg0] := true
+//@   ensures [all] forall j int :: 0 <= j && j < len(segments) ==> ghost.removed[old(segments[j])] && old(segments[j]).deleted
+//@   ensures [only] forall s *segment :: ghost.removed[s] ==> old(ghost.removed[s]) || (exists j int :: 0 <= j && j < len(segments) && old(segments[j]) == s)
+//@   loop 1 invariant -1 <= rangeindex && rangeindex < len(segments) || len(segments) == 0 && rangeindex == -1
+//@   loop 1 invariant forall j int :: 0 <= j && j < len(segments) ==> segments[j] == old(segments[j])
+//@   loop 1 invariant forall j int :: 0 <= j && j <= rangeindex ==> old(segments[j]).deleted
+//@   loop 1 invariant ghost.removed == old(ghost.removed)
+//@   loop 2 invariant -1 <= rangeindex && rangeindex < len(segments) || len(segments) == 0 && rangeindex == -1
+//@   loop 2 invariant forall j int :: 0 <= j && j < len(segments) ==> segments[j] == old(segments[j])
+//@   loop 2 invariant forall j int :: 0 <= j && j < len(segments) ==> old(segments[j]).deleted
+//@   loop 2 invariant forall j int :: 0 <= j && j <= rangeindex ==> ghost.removed[old(segments[j])]
+//@   loop 2 invariant forall s *segment :: ghost.removed[s] ==> old(ghost.removed[s]) || (exists j int :: 0 <= j && j <= rangeindex && old(segments[j]) == s)
+
+// applyAgeLimit: drops exactly the maximal prefix of expired segments (last write before the cut-off),
+// never the newest segment.
+//@ pure func expired(s *segment, ttl int64) bool = s.lastWriteTime < ttl
+//@ func (*deleteCleaner).applyAgeLimit serves C09
+//@   returns (out, err)
+//@   requires c != nil && segsOK(segments)
+//@   safety
+//@   ensures [input-kept] forall j int :: 0 <= j && j < len(segments) ==> segments[j] == old(segments[j])
+//@   ensures [untouched-if-short] len(segments) <= 1 ==> err == nil && out == segments
+//@   ensures [suffix] err == nil ==> arrOf(out) == arrOf(segments) && offOf(out) + len(out) == offOf(segments) + len(segments) && len(out) <= len(segments) && (len(segments) >= 1 ==> len(out) >= 1)
+//@   ensures [deleted] err == nil ==> (forall j int :: 0 <= j && j < len(segments)-len(out) ==> ghost.removed[old(segments[j])])
+//@   ensures [only-deleted] forall s *segment :: ghost.removed[s] ==> old(ghost.removed[s]) || (exists j int :: 0 <= j && j < len(segments)-len(out) && old(segments[j]) == s) || err != nil
+//@   ensures [only-expired] err == nil ==> (forall j int :: 0 <= j && j < len(segments)-len(out) ==> old(segments[j].lastWriteTime) < ghost.ttl)
+//@   ensures [stops-at-live] err == nil && len(out) >= 2 ==> old(segments[len(segments)-len(out)].lastWriteTime) >= ghost.ttl
+//@   ghost after call dynamic: ghost.ttl := ret0
+//@   loop 1 invariant -1 <= rangeindex && rangeindex < len(segments)
+//@   loop 1 invariant forall j int :: 0 <= j && j < len(segments) ==> segments[j] == old(segments[j])
+//@   loop 1 invariant idx == 0 && ttl == ghost.ttl
+//@   loop 1 invariant len(toDelete) == rangeindex + 1 && (isnil(toDelete) || fresh(toDelete))
+//@   loop 1 invariant forall j int :: 0 <= j && j < len(toDelete) ==> toDelete[j] == old(segments[j])
+//@   loop 1 invariant forall j int :: 0 <= j && j <= rangeindex ==> old(segments[j]) == toDelete[j]
+//@   loop 1 invariant forall j int :: 0 <= j && j <= rangeindex ==> old(segments[j].lastWriteTime) < ttl
+//@   loop 1 invariant rangeindex < len(segments) - 1 || len(segments) == 0
+// ttl: the cut-off computed for this run (the value computeTTL returned)
+//@ ghost var ttl int64
+
+// Clean (retention): age, then messages, then bytes. The survivors are a suffix of the input that
+// keeps the newest segment, and exactly the dropped prefix was handed to Delete().
+//@ func (*deleteCleaner).Clean serves C09
+//@   returns (out, err)
+//@   requires c != nil && segsOK(segments)
+//@   safety
+//@   ensures [no-limits] c.Retention.Bytes == 0 && c.Retention.Messages == 0 && c.Retention.Age == 0 ==> err == nil && out == segments && ghost.removed == old(ghost.removed)
+//@   ensures [suffix] err == nil ==> len(out) <= len(segments) && (len(segments) >= 1 ==> len(out) >= 1) && (forall j int :: 0 <= j && j < len(out) ==> out[j] == old(segments[len(segments)-len(out)+j]))
+//@   ensures [only-deleted] err == nil ==> (forall s *segment :: ghost.removed[s] ==> old(ghost.removed[s]) || (exists j int :: 0 <= j && j < len(segments)-len(out) && old(segments[j]) == s))
+// (that every segment of the dropped prefix was handed to Delete() is proved per stage; its composition over the
+//  three stages needs an index-shifting argument the solvers do not find, so it is not claimed at this level)
